@@ -185,6 +185,15 @@ Qed.
 Lemma kids_nodup t : NoDup (ids t) -> NoDup (iid t :: flat_map kid_ids (subtrees t)).
 Proof. intros H. eapply Permutation_NoDup; [apply ids_perm_kids|exact H]. Qed.
 
+Lemma sub_ids_nodup_aux t : NoDup (ids t) -> forall s, In s (subtrees t) -> NoDup (ids s).
+Proof.
+  induction t as [i p kids IH] using itree_ind'. intros Hnd s Hs. rewrite subtrees_unfold in Hs.
+  destruct Hs as [<-|Hs]; [exact Hnd|]. apply in_flat_map in Hs. destruct Hs as [k [Hk Hs]].
+  rewrite Forall_forall in IH. apply (IH k Hk); [|exact Hs].
+  rewrite ids_unfold in Hnd. inversion Hnd as [|? ? _ H]; subst. exact (flat_map_nodup_part ids kids k H Hk).
+Qed.
+Definition sub_ids_nodup t (H : NoDup (ids t)) s := sub_ids_nodup_aux t H s.
+
 Section Facts.
   Variable t : itree.
   Hypothesis Hnd : NoDup (ids t).
@@ -413,6 +422,29 @@ Section Facts.
     eapply nodup_app_disj; [exact Hnd'|exact Hx'|right; exact Hf].
   Qed.
 End Facts.
+
+(* the relations of one tree agree with each other *)
+Theorem tree_consistency t : NoDup (ids t) -> forall n, In n (ids t) ->
+  (* a node is among its parent's children exactly once, at its index *)
+  (forall p, a_parent t n = Some p ->
+     exists i, a_index t n = Some i /\ nth_error (a_children t p) i = Some n /\ NoDup (a_children t p))
+  (* parent and children are the same relation *)
+  /\ (forall p, In p (ids t) -> (a_parent t n = Some p <-> In n (a_children t p)))
+  (* following / preceding sibling are inverse *)
+  /\ (forall m, In m (ids t) -> (a_next_sibling t n = Some m <-> a_prev_sibling t m = Some n))
+  (* descendants are the depth-first pre-order of the children relation *)
+  /\ a_descendants t n = flat_map (fun k => k :: a_descendants t k) (a_children t n)
+  (* nodes before + the node + nodes after, in document order, partition the tree *)
+  /\ rev (a_preceding t n) ++ n :: a_following t n = ids t
+  /\ ~ In n (a_preceding t n) /\ ~ In n (a_following t n)
+  /\ (forall x, In x (a_preceding t n) -> ~ In x (a_following t n)).
+Proof.
+  intros Hnd n Hn. split; [intros p Hp; exact (child_once_at_index t Hnd n p Hp)|].
+  split; [intros p Hp; exact (parent_iff_child t Hnd n p Hp)|].
+  split; [intros m Hm; exact (siblings_inverse t Hnd n m Hn Hm)|].
+  split; [exact (descendants_preorder t Hnd n Hn)|].
+  split; [exact (partition t n Hn)|]. exact (partition_disjoint t Hnd n Hn).
+Qed.
 
 (* ---------------------------------------------------------------- filters, indexing *)
 Lemma filter_fand (D F : nfilter) l : filter (fand D F) l = filter F (filter D l).
